@@ -23,21 +23,22 @@ def prop(pid, level, technique, text, note, theorems=(), oracle=False, rule=None
 
 TV = "translation_validation"
 
-prop("C01", TV, "Lean 4 model + differential correspondence (proof in progress)",
+prop("C01", "proof", "Lean 4 theorems: mapper == record-level retrace specification (all record lists, all frames), cache == mapper (C02), bytes -> records (C05) + differential correspondence",
      "Executable Lean model of parser, mapper and cache answers frame-by-line queries; every run compares it with the real crate on generated mappings x the query universe, and a metamorphic oracle checks independence from terminators, noise lines and block order.",
      "Model hand-written; tie is differential. Mapper side proved (record-level specification PG/Spec/Retrace.lean: last block with that name, entries in file order whose range contains the line, ProGuard line rule, sourceFile/synthetic/foreign-class file rule; unknown class/method => []; independent of parameter index and of other blocks); bytes -> records is C05; the cache side is C02.",
-     theorems=["PG.C01_mapper", "PG.C01_unknown_class", "PG.C01_unknown_method", "PG.C01_pm_indep", "PG.C01_offset_exact", "PG.C01_block_local"], oracle=True)
-prop("C02", TV, "Lean 4 model + differential correspondence (proof in progress)",
-     "Model of mapper and of cache writer+reader compared with the crate on every query kind; direct oracle mapper == cache on the implementation's own answers.",
-     "Model hand-written; tie is differential.")
-prop("C03", TV, "Lean 4 model + differential correspondence (proof in progress)",
+     theorems=["PG.C01_mapper", "PG.C01_unknown_class", "PG.C01_unknown_method", "PG.C01_pm_indep", "PG.C01_offset_exact", "PG.C01_block_local", "PG.C01_cache"], oracle=True)
+prop("C02", "proof", "Lean 4 refinement proof (cache writer + reader == mapper == record-level specification) + differential correspondence",
+     "Kernel-checked, for every record list in the representable domain (ReprR: names non-empty, line numbers < 2^32-1, strings valid UTF-8) whose tables fit the format's u32 counters (Small): the written bytes parse back to the written tables (serialisation round trip: little-endian u32s, 0-or-4-byte padding, header counts, LEB128-prefixed deduplicated string table); the tables represent the record stream (classes strictly sorted by name with last-block-wins, members grouped and sorted by obfuscated name in file order, by-params entries sorted by (name, args) after inline filtering and de-duplication, every offset resolving in the final string table, offsets identifying names); Rust's branch-free binary_search_by + linear range expansion on such tables return exactly the matching entries; hence class lookup, method lookup, frame remapping by line and by parameter list, throwable, text and typed stack-trace remapping and signature deobfuscation of the parsed cache equal those of the mapper (which equal the record-level specification, C01/C03/C04), for all query strings and line numbers; line-based mapper answers do not depend on the parameter index. The model is tied to the crate on every query kind over grammar, token-mutated, out-of-domain and corpus mappings, plus the direct oracle mapper == cache on the implementation's own answers.",
+     "ReprR carries validUtf8 as a hypothesis (Rust's &str guarantees it for actual records). Small (counts < 2^32, string section < 2^32-1 bytes) is forced by the format.",
+     theorems=["PG.C02_parses", "PG.C02_class", "PG.C02_method", "PG.C02_frame_line", "PG.C02_frame_params", "PG.C02_frame", "PG.C02_throwable", "PG.C02_text", "PG.C02_typed", "PG.C02_signature", "PG.C02_pm_indep"])
+prop("C03", "proof", "Lean 4 theorems: parameter-based retrace of mapper == specification (all record lists), cache == mapper (C02) + differential correspondence",
      "Parameter-based retrace of model vs crate on multi-class mappings with inline groups and repeated entries; oracle: mapper(pm) == cache, no duplicate methods, line 0 / no file.",
      "Model hand-written; tie is differential. Mapper side proved against PG/Spec/Retrace.lean (non-inlined entries, first occurrence per (obf,args,name), file order, line 0, no file, no duplicates, block-local); the cache side is C02.",
-     theorems=["PG.C03_mapper", "PG.C03_pm_false", "PG.C03_line_file", "PG.C03_no_inlined", "PG.C03_nodup", "PG.C03_class_local"])
-prop("C04", TV, "Lean 4 model + differential correspondence (proof in progress)",
+     theorems=["PG.C03_mapper", "PG.C03_pm_false", "PG.C03_line_file", "PG.C03_no_inlined", "PG.C03_nodup", "PG.C03_class_local", "PG.C03_cache"])
+prop("C04", "proof", "Lean 4 theorems: class/method lookup of mapper == specification, cache == mapper (C02) + differential correspondence",
      "Class and method lookup of model vs crate on adversarially similar names and sort-order neighbours; oracle: method answer implies every line-based frame carries it.",
      "Model hand-written; tie is differential. Mapper side proved against PG/Spec/Retrace.lean (class lookup = last class line with that name; method lookup answers iff all entries agree; then every line-based frame carries that name); the cache side is C02.",
-     theorems=["PG.C04_class", "PG.C04_method", "PG.C04_method_frames"])
+     theorems=["PG.C04_class", "PG.C04_method", "PG.C04_method_frames", "PG.C04_cache_class", "PG.C04_cache_method"])
 prop("C05", "proof", "Lean 4 round-trip theorems over the line grammar AST + differential correspondence",
      "Kernel-checked theorems over the documented line grammar (PG/Spec/Grammar.lean: an AST of class, field, method, key/value header, key header and R8 sourceFile header lines with printer and denoted record, written from the format description only): every well-formed line, followed by any terminator(s) and any further input or by the end of input, parses to exactly the record it denotes (names, types, argument string, foreign class split at the last dot, line mapping present iff both obfuscated numbers are positive, original start/end present iff printed); try_parse agrees; a file of such lines with any mix of CR/LF terminators (last one optional) yields exactly their records. Malformed families, each quantified over all well-formed components, yield an error item carrying the offending line: unspaced arrow, missing arrow, missing class colon, start line without end line, missing return type, indentation of 0-3 spaces. The parser model is tied to the crate on printed ASTs, malformed variants, every corpus line and all lines of <= 4 (quick) / 6 (thorough) tokens over a 12-token alphabet.",
      "Hypotheses the proofs force beyond the property text (all in Line.WF): a type may not start with a digit unless a start:end: prefix is printed; numbers < 2^64; header keys/values without surrounding Unicode whitespace; method names without '.'.",
@@ -61,19 +62,21 @@ prop("C10", "proof", "Lean 4 theorems (layout frozen against the current source,
      "Kernel-checked: (1) layout_frozen — re-checked on every run against PG/Generated/Layout.lean, which is regenerated from /repo/src/cache/raw.rs: while the source declares format version 1 its magic, the names/types/order of the Header, Class and Member fields and the Class sentinels are exactly those of the pinned release, so a layout or sentinel change without a version bump breaks a proof obligation; (2) C10_reader_compat — for every buffer and every line-based frame query, whenever the frozen model of the 5.5.0 reader answers, the current reader model gives the identical answer (all other primitive queries are the same model functions); C10_no_fault — the 5.5.0 reader's unchecked arithmetic cannot fault on buffers of the shape either release writes from mappings with line numbers < 2^32; C10_version_gate — any other version is rejected with the wrong-version error. Both reader models are tied to their crates (vendored 5.5.0 snapshot and current tree) on files written by both writers, and both crates cross-read both writers' files and are compared query for query on every run.",
      "The pinned *writer* is not modelled (repairs F1/F7 changed what the writer emits for some mappings); that both writers' files are read identically by both readers is established by the cross-release differential run, not proved. remap_stacktrace_typed is excluded from the comparison (repair F3 changed it independently of the file format).",
      theorems=["PG.layout_frozen", "PG.layout_model_arity", "PG.C10_reader_compat", "PG.C10_no_fault", "PG.C10_version_gate"], oracle=True, needs_layout=True)
-prop("C11", TV, "Lean 4 model + differential correspondence (proof in progress)",
-     "Every strict prefix and every header edit of written files: error kind of model vs crate; oracle: an accepted prefix answers like the full file.",
-     "Model hand-written; tie is differential.", oracle=True)
+prop("C11", "proof", "Lean 4 theorems (every strict prefix of every written file rejected; parser decision sequence characterised) + differential correspondence",
+     "Kernel-checked: for every record list whose tables fit the u32 counters, every strict prefix of the written file is rejected by the parser (stronger than the property: no prefix is even accepted); and for every buffer the parser's decision sequence is characterised in check order — < 24 bytes => InvalidHeader, byte-swapped magic => WrongEndianness, other magic => WrongFormat, other version => WrongVersion, too short for the declared classes => InvalidClasses, for members / by-params entries or their padding => InvalidMembers, fewer string bytes than declared => UnexpectedStringBytes with the exact numbers, else accepted. The reader model is tied to the crate on every prefix of written files (all prefixes of small files, sampled lengths and all section boundaries +-8 of large ones) and every single-field header edit; an oracle on the implementation checks that an accepted prefix answers like the full file.",
+     "Buffers are assumed 8-byte aligned (alignment is a function of the file offset in the model; the harness copies every buffer into aligned storage).",
+     theorems=["PG.C11_prefix", "PG.C11_kinds", "PG.C11_magic"], oracle=True)
 prop("C12", "proof", "Lean 4 theorems for all buffers and queries (index/slice/overflow obligations, slice-of-buffer-or-query) + differential correspondence on corrupted buffers",
      "The reader model is total on arbitrary byte buffers (termination = Lean accepting the definitions). Kernel-checked obligations, for every buffer and query: binary_search_by stays in range for any comparator; find_range's slices are in range and the result is a contiguous all-equal slice; class member / by-params slices are in range or none; LEB128 consumes <= 10 bytes and stays below 2^64; every decoded field is < 2^32 and every returned line < 2^64 (no arithmetic overflow); every string returned by class, method and frame queries is a contiguous slice of the buffer or of the query. The exact mirror of binary_search_by / LEB128 / align_to on unsorted and corrupt data is validated on every run against the crate (field boundary values, swapped records, bit flips, LEB128/UTF-8 damage, random tails), each query under catch_unwind with overflow checks on.",
      "Memory safety of watto's unsafe pointer casts and Rust lifetimes is not modelled; 'slice of the buffer' is proved as list-infix in the model. Text-trace and signature queries return owned strings built from such pieces (excluded, as in the property).",
      theorems=["PG.C12_bsearch_in_range", "PG.C12_bsLoop_lt", "PG.C12_search_in_range", "PG.C12_findRange_slice", "PG.C12_class_slices", "PG.C12_leb_bounded", "PG.C12_readString_slice", "PG.C12_strings_suffix", "PG.C12_fields_u32", "PG.C12_line_bounded", "PG.C12_class_slice", "PG.C12_method_slice", "PG.C12_frame_slices"])
-prop("C13", TV, "Lean 4 model + differential correspondence (proof in progress)",
-     "Full pipeline on hostile mapping bytes and queries (numbers around 2^32 and 2^64, empty names, invalid UTF-8): no panic, no error, answers equal the model's.",
-     "Model hand-written; tie is differential.")
+prop("C13", "proof", "Lean 4 theorems (writer output always parses; u32 counters never overflow; saturating line arithmetic; slice bounds) on a total model + differential correspondence under catch_unwind",
+     "The model of the whole pipeline is total: every function terminates on every input (Lean accepts the definitions; C06 proves the record iterator's progress). Kernel-checked obligations behind the fallible steps: for every record list whatsoever (truncated line numbers, empty names, invalid lines dropped) whose tables fit the u32 counters, the writer's output is accepted by the parser; every stored field and counter fits u32 and the header sums are the section lengths; the mapper's line arithmetic stays below 2^64 for every query line (saturating); parse_frame's slice bounds are in range. C12 adds the reader-side obligations. Every protocol operation on the crate runs under catch_unwind with overflow checks on: hostile mapping bytes (numbers around 2^32 and 2^64, empty names, invalid UTF-8, token mutations, byte soups) x every query kind incl. extreme lines and multi-byte characters at slice boundaries; a panic, an error or a disagreement with the model is a violation.",
+     "Small (counts < 2^32, string section < 2^32-1 bytes) is assumed: mapping files of several GiB are outside what the format can represent. Memory safety of unsafe casts is not modelled.",
+     theorems=["PG.C13_write_parse_ok", "PG.C13_bytes_pipeline", "PG.C13_counters", "PG.C13_line_bounded", "PG.C13_frame_slice"])
 prop("C14", "other", "Lean 4 model as the single reference value + repeated/threaded/multi-process runs",
      "Every written cache equals the Lean model's bytes; writes are repeated in-process, from 8 threads and in >= 8 fresh processes (fresh hash seeds) and compared; length equals the length implied by the header.",
-     "Partial by nature: schedules and hash seeds are runtime behaviour; the model supplies the unique reference value.", oracle=True,
+     "Partial by nature: schedules and hash seeds are runtime behaviour; the model supplies the unique reference value.", oracle=True, theorems=["PG.C14_length", "PG.C14_header", "PG.C14_function"],
      explanation="Determinism across processes/threads is runtime behaviour no Lean model exhibits; the check ties every written file to the single value computed by the Lean model and repeats writes across threads and >= 8 processes.")
 prop("C15", "proof", "Lean 4 theorems over all deterministic sinks (arbitrary state machines) + differential correspondence",
      "Kernel-checked theorems for every sink (arbitrary state machine answering accept-k / interrupted / fail to each write call), every fuel and every record list: success => accepted bytes = canonical serialisation; always a prefix of it; a sink failure forces result = failed; any sink accepting >= 1 byte per call makes writing succeed. The write_all / chunk-sequence model is tied to the crate by position-based sink policies (outcome independent of how the writer chunks its calls) and by call-indexed scripts (short / fail / interrupted at every call index, chunk sizes 1..16) on the implementation.",
